@@ -2,4 +2,4 @@ SPECIFICATION Spec
 CONSTANTS
   MaxItems = 2
   UniverseName = "corewrap"
-INVARIANTS TypeOK SizeLaw CursorInside CursorIsOffset EndExactly LastAgrees ByteModel BrokenOnlyAfterCompositeThrow
+INVARIANTS TypeOK SizeLaw CursorInside CursorIsOffset EndExactly RoundTrip LastAgrees ByteModel BrokenOnlyAfterCompositeThrow
